@@ -166,11 +166,61 @@ def run(prog, rep):
                 rep.violation('R2', loc(mod, where_node), owner, f'{name}: documented example does not match',
                               f'the documented example {example!r} of {name} does not match its own pattern {pat!r}')
 
+    def unicode_digits(pat):
+        """does the pattern use the category \\d (str patterns without re.ASCII: every Unicode decimal digit)?"""
+        import re._parser as sre_parse
+        import re._constants as sre_c
+        try:
+            tree = sre_parse.parse(pat)
+        except re.error:
+            return False
+        if tree.state.flags & re.ASCII:
+            return False
+        found = []
+
+        def walk(items):
+            for op, av in items:
+                if op is sre_c.IN:
+                    for o2, a2 in av:
+                        if o2 is sre_c.CATEGORY and a2 is sre_c.CATEGORY_DIGIT:
+                            found.append(1)
+                elif op is sre_c.CATEGORY and av is sre_c.CATEGORY_DIGIT:
+                    found.append(1)
+                elif op in (sre_c.MAX_REPEAT, sre_c.MIN_REPEAT):
+                    walk(av[2])
+                elif op is sre_c.SUBPATTERN:
+                    walk(av[3])
+                elif op is sre_c.BRANCH:
+                    for b_ in av[1]:
+                        walk(b_)
+        walk(tree)
+        return bool(found)
     vexpr = labels.assigns.get('VALIDATORS')
+    lam_src = labels.assigns.get('LAMBDA_VALIDATORS')
+    lam_keys = {}
+    if isinstance(lam_src, ast.Dict):
+        for k_, v_ in zip(lam_src.keys, lam_src.values):
+            if isinstance(k_, ast.Constant):
+                lam_keys[k_.value] = v_
     for k, v in validators.items():
         if not (isinstance(v, tuple) and len(v) == 2 and isinstance(v[0], str)):
             raise AnalysisError(f'Labels.VALIDATORS[{k!r}] is not a (pattern, example) pair')
         check_pattern(k, v[0], v[1], vexpr, 'Labels.VALIDATORS', lmod)
+        # numeric formats are ASCII digits: \\d also matches Arabic-Indic, Devanagari, full-width ... digits, which int() converts,
+        # so such a value passes the range test and is stored
+        if unicode_digits(v[0]):
+            rep.violation('R2', loc(lmod, vexpr), 'Labels.VALIDATORS', f'{k}: \\d admits non-ASCII digits',
+                          f'the {k} pattern {v[0]!r} uses \\d, which for text patterns matches every Unicode decimal digit; int() accepts them too, '
+                          f'so a value written in e.g. Arabic-Indic digits passes format and range checks and is stored although the documented '
+                          f'format is ASCII digits')
+    # a value that is range-checked through int() has a pattern: int() alone also accepts surrounding blanks, a sign, underscores
+    for k, lam in sorted(lam_keys.items()):
+        uses_int = any(isinstance(x, ast.Call) and isinstance(x.func, ast.Name) and x.func.id == 'int' for x in ast.walk(lam))
+        rep.instance('R2', f'Labels.LAMBDA_VALIDATORS[{k!r}]: converts with int(): {uses_int}; has a format pattern: {k in validators}')
+        if uses_int and k not in validators:
+            rep.violation('R2', loc(lmod, lam), 'Labels.LAMBDA_VALIDATORS', f'{k}: range-checked through int() without a format pattern',
+                          f'{k} has a range validator that converts the text with int() but no pattern in VALIDATORS: int() also accepts '
+                          f'" 3", "+3", "0_3", "3\\n" and non-ASCII digits, so values outside the documented format are stored')
     base = prog.cls(BASE)
     name_classes = []
     for c in prog.subclasses(base):
@@ -634,6 +684,8 @@ def _holds_labels(cls):
 
 CL = 'fim/slivers/capacities_labels.py'
 MUTANTS = [
+    {'name': 'vlan-pattern-unicode-digits', 'file': CL, 'rule': 'R2', 'find': "        'vlan': (r'[0-9]{1,4}', \"1234\"),", 'replace': "        'vlan': (r'[\\d]{1,4}', \"1234\"),"},
+    {'name': 'numa-pattern-dropped', 'file': CL, 'rule': 'R2', 'find': "        'numa': (r'-1|[0-9]', \"0\")\n", 'replace': ''},
     {'name': 'name-cached-before-validation', 'file': 'fim/user/model_element.py', 'rule': 'R7',
      'find': "            self.set_property('name', value)\n        self._name = value\n", 'replace': "            self._name = value\n            self.set_property('name', value)\n        self._name = value\n"},
     {'name': 'labels-scalar-fullmatch-to-match', 'file': CL, 'rule': 'R1',
